@@ -385,7 +385,7 @@ func gen(r *rand.Rand, tier string, n int) []any {
 	var out []any
 	maxN, maxKeys := 40, 12
 	if tier == "thorough" {
-		maxN, maxKeys = 400, 40
+		maxN, maxKeys = 150, 24
 	}
 	for i := 0; i < n; i++ {
 		switch k := r.Intn(20); {
@@ -442,6 +442,6 @@ func gen(r *rand.Rand, tier string, n int) []any {
 }
 
 func main() {
-	common.Main(common.Prop{ID: "C49", Facts: facts, Gen: gen, Run: run, QuickN: 500, ThoroughN: 6000,
+	common.Main(common.Prop{ID: "C49", Facts: facts, Gen: gen, Run: run, QuickN: 500, ThoroughN: 2500,
 		Preamble: "Open Scope Z_scope.\n"})
 }
